@@ -342,13 +342,13 @@ func malform(r *core.Rand, rules []hsim.MRule) (string, string, bool) {
 		}
 		return rep1(";", ""), "statement terminator deleted", true
 	case 12:
-		v := r.PickStr("2147483648", "-2147483649", "99999999999")
+		v := r.PickStr("2147483648", "-2147483649", "99999999999", "18446744073709551615", "9223372036854775808")
 		if rules[0].Sal != nil {
 			return rep1(fmt.Sprintf("salience %d", *rules[0].Sal), "salience "+v), "salience out of range", false
 		}
 		return rep1(" {", " salience "+v+" {"), "salience out of range", false
 	case 13:
-		return rep1(fmt.Sprintf("= %d;", rules[0].U), "= 99999999999999999999;"), "integer literal out of range", false
+		return rep1(fmt.Sprintf("= %d;", rules[0].U), "= "+r.PickStr("99999999999999999999", "9223372036854775808", "-9223372036854775809", "0xFFFFFFFFFFFFFFFF", "18446744073709551615", "0x8000000000000000")+";"), "integer literal out of range", false
 	case 14:
 		return rep1("Retract(\""+rules[0].Name+"\")", "Retract(\"bad \\q escape\")"), "malformed string escape", false
 	default:
